@@ -17,6 +17,7 @@ PROOF_MODULES = ["Compute.Props.C18", "Compute.Lemmas.C18Step", "Compute.Lemmas.
 REQUIRED_THEOREMS = [
     "Cv.C18.valid_inv", "Cv.C18.coherent_inv", "Cv.C18.update_total", "Cv.C18.observational_equality",
     "Cv.C18.new_isSome_iff", "Cv.C18.set_spec", "Cv.C18.update_spec", "Cv.C18.history_inv",
+    "Cv.C18.step_inv", "Cv.C18.reject_invalid", "Cv.C18.stream_equality",
 ]
 RULE = ("random histories of 1..20 mutations (setters, bulk updates, re-construction; ~30% invalid values; valid "
         "targets on both sides of the current parameters, bounds entirely above / below the old interval) after a "
@@ -118,6 +119,8 @@ def gen_value(rng, cls, cur, i, valid):
     c = cur[i] if cur else None
     if cls == "pos":
         if valid:
+            if rng.chance(0.03):
+                return rng.choice([1e-300, 1e300, float("inf"), 1e-30, 1e30])
             k = rng.randint(0, 9)
             if c is not None and k < 3 and 0 < c < 1e300:
                 return c * rng.choice([0.5, 2.0, 1.0 + 2.0 ** -52, 0.999, 10.0, 0.1])  # both sides of the current value
@@ -128,6 +131,8 @@ def gen_value(rng, cls, cur, i, valid):
             return rng.loguniform(1e-3, 1e3)
         return rng.choice([0.0, -0.0, -1.0, -rng.loguniform(1e-6, 1e3), -1e-300, float("-inf")])
     if cls == "real":
+        if rng.chance(0.03):
+            return rng.choice([1e300, -1e300, float("inf"), float("-inf"), 1e-300])
         k = rng.randint(0, 5)
         if k == 0:
             return rng.choice([0.0, -0.0, 1.0, -1.0, 1e6, -1e6])
@@ -136,6 +141,8 @@ def gen_value(rng, cls, cur, i, valid):
         return rng.normal() * 10.0 ** rng.randint(-2, 3)
     if cls == "nonneg":
         if valid:
+            if rng.chance(0.03):
+                return rng.choice([1e-300, 1e300, float("inf")])
             k = rng.randint(0, 5)
             if k == 0:
                 return rng.choice([0.0, -0.0, 1.0, 1e-8, 1e6])
@@ -158,6 +165,8 @@ def gen_value(rng, cls, cur, i, valid):
             return rng.choice([0, 1, 2, 1000, 100000])
         if c is not None and k == 1:
             return min(U64MAX, max(0, int(c) + rng.choice([-1, 1, -10, 10, 100])))
+        if rng.chance(0.02):
+            return rng.choice([10 ** 9, 2 ** 31, 2 ** 32 + 5, 10 ** 12])
         return rng.randint(0, 400) if k < 8 else rng.randint(1000, 1000000)
     if cls == "posnat":
         if valid:
@@ -195,7 +204,7 @@ def gen_bounds(rng, cur, integer, valid, mode=None):
     elif mode == "around":
         lo, hi = a - g, b + g
     elif mode == "far":
-        s = rng.choice([-1, 1]) * (10 ** rng.randint(3, 9))
+        s = rng.choice([-1, 1]) * (10 ** rng.randint(3, 18 if integer else 300))
         lo, hi = s, s + g
     else:
         lo = hi = a + g * rng.choice([-1, 1])
@@ -367,6 +376,9 @@ def corpus():
         render("gumbel", 3, P, [("new", [0.0, 1.0]), ("upd", [3.0, 0.0]), ("set", 1, 0.5)]),
         render("poisson", 3, PI, [("new", [1.0]), ("set", 0, 20.0), ("set", 0, -1.0), ("upd", [9.5])]),
         render("t", 3, P, [("new", [1.0]), ("set", 0, 0.0), ("set", 0, 30.0), ("upd", [2.0])]),
+        # observations that panic (i64 overflow in pmf / var / sample; Gamma::new(0, 1) inside T::sample): `X` on both sides
+        render("discreteuniform", 5, [0, -9 * 10 ** 18, 9 * 10 ** 18], [("new", [-9 * 10 ** 18, 9 * 10 ** 18]), ("set", 0, 9 * 10 ** 18 - 3), ("upd", [-1e30, 1e30]), ("set", 1, 5)]),
+        render("t", 5, P, [("new", [5e-324]), ("set", 0, 1e-300), ("upd", [float("inf")])]),
         render("bernoulli", 3, PI, [("new", [0.5]), ("set", 0, 1.0 + 2.0 ** -52), ("set", 0, 1.0), ("upd", [0.0]), ("upd", [0.25])]),
     ]
 
